@@ -85,6 +85,13 @@ def run(res, proof):
             if out != want:
                 res.violation('make_pair_table:' + s[:20] + ':' + b, {'op': list(op)}, out, want)
             elif all(len(x) > 0 for x in s.split(b)):
+                if len(s) <= 8 and b == '+':
+                    # results belong to the caller: wrecking them must not change what the next call returns
+                    d = {'op': list(op)}
+                    if cu.fresh_results(res, 'make_pair_table', lambda: cux.make_pair_table(s), d):
+                        cu.fresh_results(res, 'pair_table_to_dot_bracket', lambda: cux.pair_table_to_dot_bracket(cux.make_pair_table(s)), d)
+                        cu.fresh_results(res, 'make_strand_table', lambda: cux.make_strand_table(list(s)), d)
+                        cu.fresh_results(res, 'strand_table_to_sequence', lambda: cux.strand_table_to_sequence(cux.make_strand_table(list(s))), d)
                 # round trip on the real code (non-empty strands)
                 o2 = ('ptdb', cu.show_pt(exp), b)
                 r2 = cu.impl_op(cux, o2)
